@@ -306,9 +306,6 @@ theorem copy_terminates : ∀ (fuel : Nat) (t : Tree) (src dest : Path) (sl : Bo
       · rfl
 
 
-/-- a fuel that is enough for every source in the tree: the total length of the paths -/
-def totalLen (t : Tree) : Nat := (t.map fun e => e.1.length).sum
-
 theorem length_le_totalLen (t : Tree) (e : Path × Node) (h : e ∈ t) : e.1.length ≤ totalLen t := by
   unfold totalLen
   induction t with
